@@ -220,7 +220,7 @@ theorem C18_pool_min_block (base s : Nat) : (Blk.usable ⟨base, implOff + s⟩)
 theorem poolMinBlockSize_toNat (m : BitVec 64) (h : 16 + m.toNat < 2 ^ 64) :
     (poolMinBlockSize m).toNat = implOff + m.toNat := by
   unfold poolMinBlockSize
-  rw [BitVec.toNat_add, implementationOffset_toNat, implOff_eq, Nat.mod_eq_of_lt h]
+  rw [BitVec.toNat_add, implementationOffset_toNat, implOff_eq16, Nat.mod_eq_of_lt h]
 
 /-- the constructor of a pool on a fixed block source whose block is `bs` bytes at `base`: the list receives
 the usable part -/
@@ -251,7 +251,7 @@ theorem C18_pool_min_block_free (cfg : Cfg) (ns n : BitVec 64) (base : Nat) (arr
   have hp := poolMinBlockSize_toNat (freeListMinBlockSize ns n) (by omega)
   obtain ⟨l', hi, hc, _⟩ := C18_min_block_suffices_free ns n (base + implOff) hov' hn
   have hr : r = _ := Pool.create_fixed cfg _ base (.free (FreeList.new ns.toNat)) arrays
-    (by rw [hp, implOff_eq]; omega)
+    (by rw [hp, implOff_eq16]; omega)
   rw [hp, Nat.add_sub_cancel_left] at hr
   simp only [AnyList.insert, FreeList.insert, hi] at hr
   rw [hr]
@@ -270,7 +270,7 @@ theorem C18_pool_min_block_ordered (cfg : Cfg) (ns n : BitVec 64) (B E base : Na
   have hp := poolMinBlockSize_toNat (orderedListMinBlockSize ns n) (by rw [orderedListMinBlockSize_eq]; omega)
   obtain ⟨l', hi, hc, _⟩ := C18_min_block_suffices_ordered_insert cfg ns n B E (base + implOff) hov' hn hm
   have hr : r = _ := Pool.create_fixed cfg _ base (.ord (OrdList.new ns.toNat B E)) arrays
-    (by rw [hp, implOff_eq]; omega)
+    (by rw [hp, implOff_eq16]; omega)
   rw [hp, Nat.add_sub_cancel_left] at hr
   simp only [AnyList.insert, hi] at hr
   rw [hr]
@@ -294,7 +294,7 @@ theorem C18_pool_min_block_small (cfg : Cfg) (ns n : BitVec 64) (P base : Nat) (
   have hp := poolMinBlockSize_toNat (smallListMinBlockSize ns n) (by omega)
   obtain ⟨l', hi, hc, _⟩ := C18_min_block_suffices_small_insert ns n P (base + implOff) hns1 hn1 hns hn
   have hr : r = _ := Pool.create_fixed cfg _ base (.small (SmallList.new ns.toNat P)) arrays
-    (by rw [hp, implOff_eq]; omega)
+    (by rw [hp, implOff_eq16]; omega)
   rw [hp, Nat.add_sub_cancel_left] at hr
   simp only [AnyList.insert, hi] at hr
   rw [hr]
@@ -333,11 +333,11 @@ theorem C18_stack_min_block_exact (bytes : BitVec 64) (base num den : Nat) (src 
   have hp : (stackMinBlockSize bytes).toNat = implOff + bytes.toNat :=
     poolMinBlockSize_toNat bytes (by omega)
   have hcap : sub64 (base + implOff + (implOff + bytes.toNat - implOff)) (base + implOff) = bytes.toNat := by
-    rw [sub64_eq (by omega) (by rw [implOff_eq]; omega)]; omega
+    rw [sub64_eq (by omega) (by rw [implOff_eq16]; omega)]; omega
   rcases hsrc with rfl | rfl <;> rw [hp]
   · refine ⟨{ arena := { src := .fixed 0, isCached := true, used := [⟨base, implOff + bytes.toNat⟩] },
               cur := base + implOff }, ?_, ?_, rfl⟩
-    · simp [MemStack.create, Arena.allocateBlock, Src.allocateBlock, Blk.usable, implOff_eq]
+    · simp [MemStack.create, Arena.allocateBlock, Src.allocateBlock, Blk.usable, implOff_eq16]
     · simp only [MemStack.capacityLeft, MemStack.blockEnd, Arena.currentBlock, List.head?_cons, Option.map_some,
         Blk.usable, hcap]
   · refine ⟨{ arena := { src := .growing num den (growBlock num den (implOff + bytes.toNat)), isCached := true,
